@@ -107,3 +107,53 @@ Proof.
     destruct Hc as [Hc|[Hc|[Hc|Hc]]]; rewrite Hc; cbn [fst snd];
       (split; [split; [apply heq_refl|split; reflexivity]|reflexivity]).
 Qed.
+
+(* ---- [heq] is a congruence for the two walks (names unique: I2 of C05) -------------------------------------------------- *)
+Definition names_nodup (h : heap) : Prop := forall d, NoDup (map fst (children h d)).
+
+Lemma heq_get (h h' : heap) (i : nat) : heq h h' ->
+  match get h i, get h' i with
+  | Some (NDir ch m), Some (NDir ch' m') => Permutation ch ch' /\ m = m'
+  | Some (NFile d k id m), Some y => y = NFile d k id m
+  | Some (NSym t m), Some y => y = NSym t m
+  | None, None => True
+  | _, _ => False
+  end.
+Proof.
+  intros H. specialize (H i). unfold onode_eq, node_eq in H.
+  destruct (get h i) as [[ch m|d k id m|t m]|], (get h' i) as [[ch' m'|d' k' id' m'|t' m']|]; auto; try discriminate H; try contradiction; congruence.
+Qed.
+
+Lemma heq_root_check (h h' : heap) (v : view) (vol p : nat) : heq h h' -> root_check h' v vol p = root_check h v vol p.
+Proof.
+  intros H. unfold root_check. pose proof (heq_get h h' p H) as G.
+  destruct (get h p) as [[ch m|d k id m|t m]|], (get h' p) as [[ch' m'|d' k' id' m'|t' m']|]; try contradiction; try discriminate G;
+    try (injection G as -> -> -> ->); try (injection G as -> ->); try reflexivity.
+  destruct G as (_ & ->). reflexivity.
+Qed.
+
+Theorem search_loop_heq (h h' : heap) (v : view) (slm : slmode) : heq h h' -> names_nodup h ->
+  forall f vol p pi sl saved, search_loop f h' v slm vol p pi sl saved = search_loop f h v slm vol p pi sl saved.
+Proof.
+  intros H Hnd. induction f as [|f IH]; intros vol p pi sl saved; [reflexivity|].
+  rewrite !search_loop_S. destruct (pi_next (v_os v) pi) as [ok pi1]. destruct (negb ok); [reflexivity|]. cbv zeta.
+  rewrite (heq_root_check h h' v vol p H). destruct (root_check h v vol p); [reflexivity|].
+  rewrite <- (heq_alookup h h' p (pi_part pi1) H (Hnd p)).
+  destruct (alookup str_eqb (pi_part pi1) (children h p)) as [c|]; [|reflexivity].
+  pose proof (heq_get h h' c H) as G.
+  destruct (get h c) as [[ch m|d k id m|t m]|], (get h' c) as [[ch' m'|d' k' id' m'|t' m']|]; try contradiction; try discriminate G.
+  - destruct G as (_ & <-). destruct (pi_is_last pi1); [reflexivity|]. destruct (check_permission m OpenLookup (v_user v)); [apply IH|reflexivity].
+  - reflexivity.
+  - injection G as -> ->. destruct (pi_is_last pi1 && slmode_eqb slm SlLstat); [reflexivity|].
+    destruct (Nat.ltb slCountMax (S sl)); [reflexivity|]. destruct (pi_replace_part (v_os v) pi1 t) as [reset pi2]. apply IH.
+  - reflexivity.
+Qed.
+
+Corollary search_node_heq (s s' : fsys) (v : view) (p : str) (slm : slmode) :
+  fsys_heq s s' -> names_nodup (f_heap s) -> search_node s' v p slm = search_node s v p slm.
+Proof.
+  intros (H & _ & Hv) Hnd. unfold search_node. rewrite <- Hv.
+  destruct (Nat.ltb 0 (pi_vnl (pi_new (v_os v) (abs (v_os v) (v_cwd v) p)))).
+  - destruct (alookup str_eqb _ (f_vols s)); [apply search_loop_heq; assumption|reflexivity].
+  - apply search_loop_heq; assumption.
+Qed.
